@@ -230,9 +230,20 @@ def write_evidence(prop, tier, seed, res, wall, nviol, extra_assumptions=()):
     if states == 0 or trans == 0:
         # no design model-checking run in this check: trace validation only (generic counters apply)
         del cov["states"], cov["transitions"]
+    try:
+        from . import manifest_data
+        note = manifest_data.CHECKS[prop]["note"]
+    except Exception:
+        note = ""
+    common = ["TLC (tla2tools 1.8.0) and, where used, Apalache 0.58 / Z3 evaluate the TLA+ definitions correctly",
+              "the harness records what the code under test did: it contains no oracle, the hooks (cfg woodpile_verif) are read-only "
+              "projections / registries / stand-ins that pass through to std",
+              "the harness build (debug assertions on, opt-level 1, cfg woodpile_verif) behaves like the library users build",
+              "exhaustive results hold within the constants listed under model_checking_runs; beyond them the claim rests on the "
+              "validated samples counted above"]
     ev = {"property_id": prop, "tier": tier, "seed": seed, "level": "model_checking",
           "coverage": cov,
-          "assumptions": list(extra_assumptions) + d.get("assumptions", []),
+          "assumptions": list(extra_assumptions) + d.get("assumptions", []) + common + ([note] if note else []),
           "wall_s": round(wall, 2), "violations": nviol}
     os.makedirs(os.path.join(VERIF, "evidence"), exist_ok=True)
     with open(os.path.join(VERIF, "evidence", prop + ".json"), "w") as f:
